@@ -165,6 +165,9 @@ func c17Encoder(c *run.Ctx, idx uint64) {
 		if cs, ns := e.CSel(), e.NSel(); cs != 0 || ns != 0 {
 			selMismatch = fmt.Sprintf("CSel()=%d NSel()=%d right after Reset", cs, ns)
 		}
+		if e.HighResolutionCoordinates {
+			selMismatch = "HighResolutionCoordinates still set right after Reset"
+		}
 		e.HighResolutionCoordinates = hiresB
 		for i := range b {
 			if i == helperAt {
@@ -209,6 +212,9 @@ func c17Encoder(c *run.Ctx, idx uint64) {
 		var f encode.Encoder
 		fresh, errF = runB(&f)
 		var f2 encode.Encoder
+		// Reset clears the public resolution flag also when it is the very
+		// first call on a zero-value Encoder
+		f2.HighResolutionCoordinates = true
 		fresh2, _ = runB(&f2)
 		c.Count("encode_twice", 1)
 	})
@@ -220,7 +226,7 @@ func c17Encoder(c *run.Ctx, idx uint64) {
 		return
 	}
 	if selMismatch != "" {
-		c.Violate("encoder/selectors-survive-reset", desc(map[string]interface{}{"observed": selMismatch}))
+		c.Violate("encoder/state-survives-reset", desc(map[string]interface{}{"observed": selMismatch}))
 		return
 	}
 	if !bytes.Equal(fresh, fresh2) {
